@@ -168,7 +168,17 @@ func genLiteral(t *rapid.T) harness.Case {
 	var md, exp string
 	x := html.EscapeString(strings.ReplaceAll(strings.Join(lines, "\n"), "\\\\", "\\"))
 	x = strings.ReplaceAll(x, "&#39;", "'")
-	switch rapid.IntRange(0, 3).Draw(t, "ctx") {
+	// (contexts 4 and 5: the literal paragraph - with its single unmatched
+	// backtick string, if it has one - is followed, inside the same list or
+	// quote, by a paragraph with code spans of one, two and three backticks: a
+	// backtick string that found no partner in one block says nothing about the
+	// next block)
+	const spans, spansHTML = "k `x` ``y`` ```z``` k", "k <code>x</code> <code>y</code> <code>z</code> k"
+	switch rapid.IntRange(0, 5).Draw(t, "ctx") {
+	case 4:
+		md, exp = "- "+strings.Join(lines, "\n  ")+"\n- "+spans, "<ul><li>"+x+"</li><li>"+spansHTML+"</li></ul>"
+	case 5:
+		md, exp = "> "+strings.Join(lines, "\n> ")+"\n>\n> "+spans, "<blockquote><p>"+x+"</p><p>"+spansHTML+"</p></blockquote>"
 	case 0:
 		md, exp = strings.Join(lines, "\n"), "<p>"+x+"</p>"
 	case 1:
